@@ -276,6 +276,7 @@ Proof.
   destruct (b_liquidated b); [discriminate|].
   destruct (b_lend_found b); cbn in H; [|discriminate].
   destruct (b_kill b); [discriminate|].
+  destruct (b_interest_panic b); [discriminate|].
   destruct (b_interest_ok b); cbn in H; [|discriminate].
   unfold ratio_above, ratio_above_of in H.
   destruct (lend_cr b) as [cr| |]; cbn in H; try discriminate.
@@ -366,17 +367,18 @@ Proof. intros. repeat split. Qed.
 (* outside the class C09-F5 the property's hypotheses make the visit seize an unsafe borrow: the
    hypothesis "vf x = VSeize" of the borrow liveness theorems is exactly "hypotheses + unsafe" there *)
 Lemma live_borrow_verdict : forall b,
-  live_hyp_borrow b = true -> borrow_unsafe b = true -> kf_C09_5 b = false ->
+  live_hyp_borrow b = true -> borrow_unsafe b = true -> kf_C09_5 b = false -> kf_C09_6 b = false ->
   seize_rule_borrow GB2 b = VSeize.
 Proof.
-  intros b Hh Hu Hk. unfold kf_C09_5 in Hk. rewrite Hh, Hu in Hk. cbn in Hk.
-  apply Bool.negb_false_iff in Hk.
+  intros b Hh Hu Hk5 Hk6. unfold kf_C09_5 in Hk5. unfold kf_C09_6 in Hk6. rewrite Hh, Hu in Hk5, Hk6. cbn in Hk5, Hk6.
+  apply Bool.negb_false_iff in Hk5. apply Bool.orb_false_iff in Hk6. destruct Hk6 as (Hp & Hi).
+  apply Bool.negb_false_iff in Hi.
   unfold live_hyp_borrow in Hh. repeat (apply andb_prop in Hh; destruct Hh as (Hh & ?)).
   unfold borrow_unsafe in Hu. unfold seize_rule_borrow, seize_rule_borrow_of, borrow_start_ok.
-  rewrite Hh. cbn [negb]. apply Bool.negb_true_iff in H4. rewrite H4. rewrite H3. cbn [negb].
-  apply Bool.negb_true_iff in H2. rewrite H2. rewrite H1. cbn [negb].
+  rewrite Hh. cbn [negb]. apply Bool.negb_true_iff in H3. rewrite H3. rewrite H2. cbn [negb].
+  apply Bool.negb_true_iff in H1. rewrite H1. rewrite Hp, Hi. cbn [negb].
   destruct (ratio_above b) as [[|]| |]; try discriminate.
-  cbn. rewrite H0. cbn [negb]. rewrite Hk, H. reflexivity.
+  cbn. rewrite H0. cbn [negb]. rewrite Hk5, H. reflexivity.
 Qed.
 
 (* a borrow whose visit does not reach VSeize is not seized by any sweep, whatever the list, the
